@@ -197,6 +197,10 @@ struct Crash : Profile {
             const auto &w = simfs::writelog();
             uint64_t    pre = 0;
             for (auto &rec : w) {
+                if (rec.path != mx.path) {
+                    pre++; // (an index into the whole log) the statement is about the HDF file; external data files get their own new ranges
+                    continue;
+                }
                 bool in_dd = false;
                 for (auto &b : ddblocks)
                     in_dd |= rec.kind == 0 && rec.off >= b.first && rec.off < b.second;
